@@ -77,6 +77,7 @@ def make_unnamed_switch() -> Any:
             case_order = sym.choice("case_order", 2)
             mid_src = sym.choice("mid_src", 2)      # N4 = In(N3) (deeper consumer of N3) or In(N2)
             out_order = sym.choice("out_param_order", 2)
+            second_unnamed = sym.bool("second_unnamed_switch_same_decider")
             label = None
             with untraced():
                 F0, F1, F2, F3, F4 = CLASSES
@@ -93,7 +94,12 @@ def make_unnamed_switch() -> Any:
                     return 0
 
                 mid = type("Mid", (F1.__mro__[1],), {"process": _mid_process, "name": "mid"})
-                mid.process.__annotations__ = dict({"a": M.Input([F3, F2][mid_src])}, **ad)
+                # a SECOND unnamed switch, driven by the same decider F0 with other cases: it is a different declaration
+                # and needs its own synthetic node
+                mid_ann = {"a": M.Input([F3, F2][mid_src])}
+                if second_unnamed:
+                    mid_ann["w"] = M.SwitchCase(switch=F0, cases=[("l1", F2), ("l2", F1)])
+                mid.process.__annotations__ = dict(mid_ann, **ad)
                 marks = [("x", M.Input(F3)), ("y", M.Input(mid))]
                 if out_order:
                     marks.reverse()
@@ -101,8 +107,23 @@ def make_unnamed_switch() -> Any:
                 dag = build_dag(input_node=F0, output_node=F4)
                 g = dag.graph
                 switches = [n for n in g.nodes if g.nodes[n].get("is_switch")]
-                if len(switches) != 1:
-                    label = "synthetic_switch_nodes:%d_for_one_switch_parameter" % len(switches)
+                want_sw = 2 if second_unnamed else 1
+                if len(switches) != want_sw:
+                    label = "synthetic_switch_nodes:%d_for_%d_switch_parameters" % (len(switches), want_sw)
+                elif second_unnamed:
+                    feeds = sorted(tuple(sorted(g.successors(sw))) for sw in switches)
+                    if feeds != [("processor__f3",), ("processor__mid",)]:
+                        label = "switch_consumers:%s" % (feeds,)
+                    else:
+                        for sw in switches:
+                            cons = list(g.successors(sw))[0]
+                            cases = {g.edges[u, sw].get("case_branch"): u for u in g.predecessors(sw) if g.edges[u, sw].get("case_branch")}
+                            exp_cases = ({"l1": "processor__f2", "l2": "processor__f1"} if cons == "processor__mid" else
+                                         ({"l1": "processor__f1", "l2": "processor__f2"}))
+                            if cons == "processor__f3" and case_order:
+                                exp_cases = {"l2": "processor__f2", "l1": "processor__f1"}
+                            if cases != exp_cases:
+                                label = "switch_cases_of_%s:%s" % (cons, sorted(cases.items()))
                 else:
                     into = [(u, g.edges[u, "processor__f3"].get("kwarg_name")) for u in g.predecessors("processor__f3")]
                     deliver = [k for _, k in into if k is not None]
@@ -110,7 +131,7 @@ def make_unnamed_switch() -> Any:
                         label = "switch_parameter_delivery:%s" % deliver
                     elif sorted(g.predecessors(switches[0])) != ["processor__f0", "processor__f1", "processor__f2"]:
                         label = "switch_node_inputs:%s" % sorted(g.predecessors(switches[0]))
-            info = {"digest": [label], "goals": ["mid_src:%d" % mid_src, "order:%d" % out_order],
+            info = {"digest": [label], "goals": ["mid_src:%d" % mid_src, "order:%d" % out_order, "second:%d" % int(second_unnamed)],
                     "summary": {"n2_src": n2_src, "mid_src": mid_src, "out_param_order": out_order}}
             return (label or "ok"), info
 
@@ -136,7 +157,7 @@ register(Job("C15", "family_n5", make_family(), tier="quick", budget_s=600,
 
 
 register(Job("C15", "unnamed_switch_two_depths", make_unnamed_switch(), tier="quick", budget_s=200,
-             goals=("mid_src:0", "mid_src:1", "order:0", "order:1"),
+             goals=("mid_src:0", "mid_src:1", "order:0", "order:1", "second:1"),
              doc={"template": "N3 has an unnamed SwitchCase parameter; N3 is consumed by the output node and by a middle node",
                   "symbolic": ["source of N2", "case order", "what the middle node consumes", "parameter order of the output node"],
                   "functions": FUN, "bounds": "16 programs"}))
